@@ -50,7 +50,7 @@ TYPES = {
 STATES = ["req", "opt", "dflt", "dflt0"]
 # the schema restates the type's implicit default (0, "", false, [], {}, null): typify treats the member like an optional one
 INTRINSIC0 = {"string": "", "str_max2": "", "integer": 0, "u8": 0, "bool": False, "vec": [], "map": {}, "number": 0, "set": [], "map_any": {}, "nullable": None,
-              "ref_label": "", "ref_level": 0}
+              "ref_label": "", "ref_level": 0, "any": None, "unit": None, "map_keyed": {}, "set_str": [], "opt_ref": None}
 XDEFS = {"Label": {"type": "string", "maxLength": 16, "default": "anon"}, "Level": {"type": "integer", "enum": [0, 1, 2, 3], "default": 2}}
 NAMES = ["a", "foo-bar", "c"]
 
